@@ -173,4 +173,11 @@ PROPS = {
         trusted_base=COMMON_TB + ["Codegen.v and Serde.v tied to the real generator and to rustc+serde for every option variant (RunC09.corr_gen, corr_serde); variants with externally defined enums are judged on the consumer crate's observations only (the enum is the consumer's type, opaque to the model)", "extern enums and custom scalar types are supplied by the harness with the schema's value names / as serde_json::Value; error MESSAGES are not compared (they mention Rust identifiers), only accept/reject and the re-serialised JSON"],
         assumptions=["a variant whose module rustc refuses is C02's subject"],
     ),
+    "C02": dict(
+        coq_props=['Properties/C02.v'],
+        run_modules=['RunC02.v'],
+        harness_cmd='c02',
+        trusted_base=COMMON_TB + ['rustc, serde_derive and the proc-macro bridge decide whether the emitted items type-check: observed, not modelled; Closed.v captures only name resolution between the items of a module (sound and complete checker, evaluated on the generator model per case; RunC02.corr_static: whenever rustc accepted the library form the checker accepts)', 'Codegen.v tied to the real generator by RunC02.corr_gen on every program of the run (library form); the CLI form and the derive form are the real binary and the real proc macro run on the same schema / query files', 'consumer crates supply only what the documentation asks for: types for custom scalars (beside the module, in `crate::scalars`, or in `super::super::types`) and the externally defined enums, written with the serde re-exported by graphql_client', '`supported` = the directed programs, valid by construction; random programs are judged only once the library accepts them'],
+        assumptions=['one rustc / cargo toolchain: the one installed in the sandbox'],
+    ),
 }
